@@ -68,11 +68,13 @@ def run(tier, replay=None):
                 common.selftest_library(r, ev, "C02")
                 first = False
     # (C) larger complexities without the deduplication rounds: trees_n / all_equations_n produced by the same calls main makes
-    big = [("core_maths", 6), ("verif_long", 7), ("verif_inv", 7), ("verif_sqrtpow", 6)] if tier == "quick" else \
-        [("core_maths", 6), ("core_maths", 7), ("ext_maths", 5), ("keep_duplicates", 4), ("verif_long", 7), ("verif_inv", 7), ("verif_inv", 9), ("verif_sqrtpow", 6)]
+    big = [("core_maths", 6), ("verif_long", 7), ("verif_inv", 7), ("verif_sqrtpow", 6), ("verif_mulsub", 7)] if tier == "quick" else \
+        [("core_maths", 6), ("core_maths", 7), ("ext_maths", 5), ("keep_duplicates", 4), ("verif_long", 7), ("verif_inv", 7), ("verif_inv", 9), ("verif_sqrtpow", 6),
+         ("verif_mulsub", 7), ("verif_mulsub", 9)]
     S = dict(S, verif_long=[["x", "a"], ["log10_abs"], ["-"]],       # function strings of 80 and more characters (log(Abs(.))/log(10) nested)
              verif_inv=[["x"], ["inv"], ["+"]],                        # sums of reciprocals: rational coefficients p/q with p, q > 1
-             verif_sqrtpow=[["x", "a"], ["sqrt_abs"], ["*", "pow"]])   # rational multiples of a parameter in exponents
+             verif_sqrtpow=[["x", "a"], ["sqrt_abs"], ["*", "pow"]],   # rational multiples of a parameter in exponents
+             verif_mulsub=[["x", "a"], [], ["*", "-"]])                # three and four parameters of which some cancel (a0*(x - x) - a1): names with gaps
     import types, os
     from harness import lib as _lib, libio, libproj, coord
     for name, n in big:
